@@ -25,7 +25,7 @@ import (
 	"github.com/invopop/gobl/c14n"
 )
 
-func errKind(err error) string {
+func c08ErrKind(err error) string {
 	if err == nil {
 		return "ok"
 	}
@@ -39,7 +39,7 @@ func errKind(err error) string {
 func c08Parse(text []byte) (*gobl.Envelope, string) {
 	obj, err := gobl.Parse(text)
 	if err != nil {
-		return nil, errKind(err)
+		return nil, c08ErrKind(err)
 	}
 	env, ok := obj.(*gobl.Envelope)
 	if !ok {
@@ -86,7 +86,7 @@ func (o *c08obs) v(detail bool) V {
 	return V{Kind: 'l', L: l}
 }
 
-func guard(kind *string, f func()) {
+func c08guard(kind *string, f func()) {
 	defer func() {
 		if r := recover(); r != nil {
 			*kind = "panic"
@@ -99,15 +99,15 @@ func guard(kind *string, f func()) {
 func c08observe(text []byte, origCanon []byte) *c08obs {
 	o := &c08obs{parse: "ok", validate: "-", calc: "-"}
 	var env *gobl.Envelope
-	guard(&o.parse, func() { env, o.parse = c08Parse(text) })
+	c08guard(&o.parse, func() { env, o.parse = c08Parse(text) })
 	if o.parse != "ok" || env == nil {
 		return o
 	}
 	if env.Head != nil && env.Head.Digest != nil {
 		o.headAlg, o.headVal = string(env.Head.Digest.Algorithm), env.Head.Digest.Value
 	}
-	guard(&o.validate, func() { o.validate = errKind(env.Validate()) })
-	guard(&o.validate, func() {
+	c08guard(&o.validate, func() { o.validate = c08ErrKind(env.Validate()) })
+	c08guard(&o.validate, func() {
 		var err error
 		o.raw, o.canon, err = canonDoc(env)
 		if err != nil {
@@ -119,21 +119,21 @@ func c08observe(text []byte, origCanon []byte) *c08obs {
 	// already says no; otherwise the digest is replaced by the recomputed one and Validate asked again.
 	st := o.validate
 	if st != "validation" {
-		guard(&st, func() {
+		c08guard(&st, func() {
 			d, err := env.Digest()
 			if err != nil || env.Head == nil {
 				st = "nodigest"
 				return
 			}
 			env.Head.Digest = d
-			st = errKind(env.Validate())
+			st = c08ErrKind(env.Validate())
 		})
 	}
 	o.structural = st == "ok"
 	// recalculate (the same value: nothing above is needed any more)
-	guard(&o.calc, func() {
+	c08guard(&o.calc, func() {
 		if err := env.Calculate(); err != nil {
-			o.calc = errKind(err)
+			o.calc = c08ErrKind(err)
 			return
 		}
 		o.calc = "ok"
